@@ -148,6 +148,9 @@ type File struct {
 	// Latin1: the static text of text nodes is written in ISO-8859-1 (é is the single byte 0xE9),
 	// as a file saved by an editor set to a legacy encoding holds it. Go expressions stay UTF-8.
 	Latin1 bool `json:"latin1,omitempty"`
+	// NamedImports: packages imported under a name of the author's choosing (tt = templ itself,
+	// rt = templ/runtime, str = strings, ht = html), each used once in a top-level declaration.
+	NamedImports []string `json:"named_imports,omitempty"`
 }
 
 // Extra top-level declaration: "go" (Text = Go source), "css" (Name, Props), "script" (Name, Text = JS body).
